@@ -501,3 +501,10 @@ package constraint
 //@   props C16
 //@   nopanic
 //@   ensures result.TokenType == jschema.TokenTypeString && result.Value == c.expression && result.Source == jschema.RuleASTNodeSourceManual
+
+// ASSUMED interface contract (not every rule implementation is verified against
+// it): validating a literal changes nothing the caller can see and fails only
+// with library errors
+//@ interface LiteralValidator.Validate(self, value)
+//@   maypanic
+//@   ensures panics ==> (typeis(pv, errors.DocumentError) || errWF(pv))
